@@ -7,7 +7,7 @@ reg(Check(
         "single goroutine per target (C04/C10 cover concurrency)",
         "one clock reading per API call (cache.Now constant during a call)",
         "timestamp differences do not overflow int64 (model uses unbounded Z)",
-        "typed values restricted to string/int/uint/bool/bytes/json/empty (no float, decimal, leaf-list, any)",
+        "typed values and value.Equal are those of coq/Value/ValueModel.v (b19's model, every arm of the oneof; floats as IEEE-754 bit patterns)",
         "cache created without latency windows and server name",
     ],
     modelled=["cache/cache.go: Cache.GnmiUpdate, Target.GnmiUpdate, gnmiUpdate, gnmiRemove, toDeleteNotification, checkTimestamp, Reset, Remove, Add, updateMeta/generateMetaUpdates, Query; metadata/metadata.go counters; ctree via CTreeModel; path.ToStrings/joinPrefixAndPath via PathModel"],
